@@ -109,6 +109,10 @@ func genRace(r *Rng, prop string) *Scenario {
 	cfg.ReconnBaseUs, cfg.ReconnMaxUs = 200, 800
 	cfg.InitIDs = spacedInitIDs(r, 12)
 	cfg.DirectQoS0 = r.chance(0.3)
+	// sessions that are not kept / re-subscription on every connection: the
+	// reconnect loop calls Resubscribe while subscribe / unsubscribe requests run
+	cfg.CleanSession = r.chance(0.4)
+	cfg.AlwaysResub = r.chance(0.3)
 	if r.chance(0.5) {
 		cfg.PingIntervalUs, cfg.KeepAliveSec, cfg.TimeoutUs = 700, 1, 500
 	}
